@@ -1,4 +1,5 @@
 (* C11 - The seed is invariant under Unicode-equivalent spellings. *)
+From B39 Require Import Proofs.Calls.
 From B39 Require Import Lib.Base Lib.Nfkd Model.GenTypes Model.Model Spec.Bip39Spec.
 From B39 Require Import Proofs.LibContract Proofs.Seed Proofs.Api.
 
@@ -15,6 +16,11 @@ Theorem C11_separators : forall lib, lib_contract lib -> forall (tbl : list (lis
   MnemonicToSeed lib (join Lib.TableWF.u3000 (map (word_at tbl) idx)) p =
   MnemonicToSeed lib (join [x20] (map (word_at tbl) idx)) p.
 Proof. exact seed_separators. Qed.
+
+(* the functions this property is about, and every package function they reach, call only what the model
+   accounts for (closed world of callees, computed on coq/Gen/Calls.v, regenerated from the source every run) *)
+Theorem C11_callees : reach_ok "MnemonicToSeed" = true.
+Proof. exact calls_seed. Qed.
 
 Print Assumptions C11_same_nfkd.
 Print Assumptions C11_separators.
